@@ -311,9 +311,10 @@ impl World {
     /// its wheel internals (slot stacks, cascades); the model uses a canonical order. The order is
     /// observable only if, inside one dispatch poll, an expiry happens while at least two
     /// requests are due and a response for one of them is read in a LATER iteration of the same
-    /// poll (reads precede expiries within an iteration, cancels and requests precede expiries).
+    /// poll (reads precede expiries within an iteration, cancels and requests precede expiries), or if
+    /// the poll ENDS the dispatch after such an expiry (the calls left unexpired are then observable).
     /// Such a script is compared only up to that poll (over-approximation: a few more are cut).
-    fn detect_timer_ambiguity(&mut self, log: &[crate::stransport::Call<Sent, Recv>]) {
+    fn detect_timer_ambiguity(&mut self, log: &[crate::stransport::Call<Sent, Recv>], ended: bool) {
         use crate::stransport::{Call, NextRes};
         let now = vclock::now_ms().max(0) as u64;
         // iterations of the pump loop: (a message was written, ids due at its end, id read at its start)
@@ -351,6 +352,11 @@ impl World {
         iters.push(last);
         for j in 0..iters.len() {
             if !iters[j].0 && iters[j].1.len() >= 2 {
+                // the poll ended (end of stream, terminal error, panic) after an expiry with two or more due:
+                // the calls left unexpired show which timer came first
+                if ended {
+                    self.ambiguous = true;
+                }
                 for later in &iters[j + 1..] {
                     if let Some(id) = later.2 {
                         if iters[j].1.contains(&id) {
@@ -407,7 +413,8 @@ impl World {
         let d = self.dispatch.as_mut().unwrap();
         let r = catch_unwind(AssertUnwindSafe(|| d.as_mut().poll(&mut cx)));
         let log = self.tr.take_log();
-        self.detect_timer_ambiguity(&log);
+        let ended = !matches!(r, Ok(Poll::Pending));
+        self.detect_timer_ambiguity(&log, ended);
         for c in &log {
             match c {
                 crate::stransport::Call::Ready(crate::stransport::TRes::Pending) => {
